@@ -39,6 +39,10 @@ def chunks(tier):
                     continue  # real nested lists always have a first list longer than the number of lists (see DESIGN.md)
                 for wv in ((0, 1) if full else (0,)):
                     out.append(("A4", {"fam": "A4", "method": method, "K": K, "M": M, "full": full, "wv": wv}))
+    sides = [10.0, 12.5, 17.3, 20.0, 25.0, 30.0, 33.3, 36.5, 40.0, 50.0, 64.1, 85.0, 100.0]
+    for method in ("rectangle", "birectangle", "bizoned", "nearsquare"):
+        for i in range(0, len(sides), 3 if not full else 1):
+            out.append(("A8", {"fam": "A8", "method": method, "sides": sides[i:i + 1], "sides2": sides if full else sides[::2], "cont": i % 2 == 1}))
     lots = LOTS if full else LOTS[:2]
     for method in ("nearsquare", "rectangle", "birectangle", "bizoned", "constrained"):
         for i, lot in enumerate(lots):
@@ -127,7 +131,7 @@ def main_for(prop, run: core.Run, rule_extra: str, require=(), only=None):
         validated = 0
     rule = (
         "one evaluation = one complete GHEManager.find_design() of the real search code over a fake-physics world "
-        "(families A1 monotone thresholds (A1Z: a temperature limit of exactly 0), A7 reconfiguration histories on one manager, A2 sign patterns, A3 sign x rank, A4 nested lists, A5 real candidate lists and A6 the real RowWise "
+        "(families A1 monotone thresholds (A1Z: a temperature limit of exactly 0), A7 reconfiguration histories on one manager, A8 narrow / empty spacing windows on a lot lattice, A2 sign patterns, A3 sign x rank, A4 nested lists, A5 real candidate lists and A6 the real RowWise "
         "generator, both with a drilling-length world); every world of each family within the bound is enumerated; non-trivial = the search "
         "evaluated at least 3 candidates at max height; states/transitions = abstract search states "
         "(method, list shape, set of answered (candidate, height class, sign)) and simulate() steps between them. "
